@@ -752,6 +752,10 @@ func createChunk(styp *mp4.StypBox, trackID, seqNr uint32) chunk {
 // chunkSegment splits a segment into chunks of specified duration.
 // The first chunk gets an styp box if one is available in the incoming segment.
 func chunkSegment(init *mp4.InitSegment, seg *mp4.MediaSegment, segMeta segMeta, chunkDur int) ([]chunk, error) {
+	if chunkDur <= 0 {
+		// availabilityTimeOffset >= segment duration leaves no time for a chunk
+		return nil, fmt.Errorf("chunk duration %d is not positive", chunkDur)
+	}
 	trex := init.Moov.Mvex.Trex
 	fs := make([]mp4.FullSample, 0, 32)
 	for _, f := range seg.Fragments {
